@@ -212,10 +212,29 @@ func runC16(t *testing.T, sc C16Scenario, keep bool) *core.Result {
 		res.HarnessErr = err.Error()
 		return res
 	}
+	// half of the runs hand every pair over in the same two buffers, overwritten for the next pair,
+	// as a caller streaming records does: the writer may not keep what it was handed
+	reuse := len(keys) > 0 && (len(keys)+len(keys[0]))%2 == 0
+	var kbuf, vbuf []byte
 	for i := range keys {
-		if err := w.Put(keys[i], vals[i]); err != nil {
+		k, v := keys[i], vals[i]
+		if reuse {
+			kbuf = append(kbuf[:0], k...)
+			vbuf = append(vbuf[:0], v...)
+			k, v = kbuf, vbuf
+		}
+		if err := w.Put(k, v); err != nil {
 			res.HarnessErr = "Put: " + err.Error()
 			return res
+		}
+	}
+	if reuse {
+		res.Probe("pairs_written_from_reused_buffers")
+		for i := range kbuf {
+			kbuf[i] = 0xEE
+		}
+		for i := range vbuf {
+			vbuf[i] = 0xEE
 		}
 	}
 	if err := w.Close(); err != nil {
